@@ -256,7 +256,7 @@ func RunProbes(s *Stats, prop string) {
 		switch {
 		case f.Status == "known" && rep:
 			s.mu.Lock()
-			s.Known = append(s.Known, fmt.Sprintf("KNOWN-FINDING: property=%s %s [%s] %s", prop, f.Key, f.What, trunc(detail, 300)))
+			s.Known = append(s.Known, oneLine(fmt.Sprintf("KNOWN-FINDING: property=%s %s [%s] %s", prop, f.Key, trunc(f.What, 220), trunc(detail, 300))))
 			s.mu.Unlock()
 		case f.Status == "known" && !rep:
 			s.Note("known finding %s did not reproduce on this tree: %s", f.Key, trunc(detail, 200))
@@ -268,4 +268,16 @@ func RunProbes(s *Stats, prop string) {
 			s.Note("fixed finding %s stays fixed", f.Key)
 		}
 	}
+}
+
+func oneLine(s string) string {
+	out := make([]rune, 0, len(s))
+	for _, r := range s {
+		if r == '\n' || r == '\r' {
+			out = append(out, ' ', '|', ' ')
+		} else {
+			out = append(out, r)
+		}
+	}
+	return string(out)
 }
